@@ -218,6 +218,7 @@ func load(repo string) *Ctx {
 		}
 		return c.Funcs[i].Pos() < c.Funcs[j].Pos()
 	})
+	canonParamOrder(c)
 	c.buildCG()
 	c.findRoots()
 	return c
